@@ -400,16 +400,21 @@ fn run_misuse(s: &Scn, out: &mut Outcome) {
     }
     for (a, b) in w.nodes.iter().zip(t.nodes.iter()) {
         out.count("differential_lists_compared", a.game.call_hashes.len() as u64);
-        let ev = |n: &Node| {
-            let mut v = n.events.clone();
-            v.sort_by_key(|(_, e)| e.addr());
-            v
-        };
+        let ev = canon_events;
         let first_div = a.game.call_hashes.iter().zip(b.game.call_hashes.iter()).position(|(x, y)| x != y);
         if first_div.is_some() || a.game.call_hashes.len() != b.game.call_hashes.len() || ev(a) != ev(b) || a.errs != b.errs || a.game.st != b.game.st {
             out.violate(v(
                 "a rejected call changed the session's behaviour",
-                format!("node {}: first differing request list {first_div:?} (lists {} vs {}), events equal {}, errors {:?} vs {:?}, final state equal {}", a.addr, a.game.call_hashes.len(), b.game.call_hashes.len(), ev(a) == ev(b), a.errs, b.errs, a.game.st == b.game.st),
+                format!(
+                    "node {}: first differing request list {first_div:?} (lists {} vs {}), first differing event {:?}, errors {:?} vs {:?}, final state equal {}",
+                    a.addr,
+                    a.game.call_hashes.len(),
+                    b.game.call_hashes.len(),
+                    ev(a).iter().zip(ev(b).iter()).find(|(x, y)| x != y).map(|(x, y)| format!("{x:?} vs {y:?}")).unwrap_or_else(|| format!("{} vs {} events", ev(a).len(), ev(b).len())),
+                    a.errs,
+                    b.errs,
+                    a.game.st == b.game.st
+                ),
             ));
             return;
         }
